@@ -276,3 +276,4 @@ def run(ctx):
     _run_rules(ctx)
     from .. import boundaries
     boundaries.check_calls(ctx, 'C17.RC', 'C17')
+    boundaries.check_guards(ctx, 'C17.RG', 'C17')
